@@ -48,6 +48,7 @@ UF = ['ab101', 'ab102', 'ab1 1', 'ab1 2']
 SEEDS['fixpair'] = [('ar', RK[0]), ('ar', RK[1]), ('ab', UF[0], RK[0]), ('ab', UF[1], RK[1]), ('ac', UF[0], UF[1])]
 SEED_UNIVERSE = {'fixpair': UF}
 TWO_GRID = ('x', 'ad', 'em')
+VARIANTS = {}        # method variants of the tree under test (method_variants), set before the workers are forked
 
 
 def py_fix_name(n):
@@ -308,6 +309,7 @@ def classify(st, op, other_consistent=True):
     g = st.main
     if k == 'mi':
         return True, ('minc:matrix-names-collide' if op[1][0] == 'z' else 'minc:any')
+    if k in ('ad', 'em'): other_consistent = not inv_violations(st.second(), limit=1)     # the second grid as it is NOW
     if k == 'ad':
         o = st.second()
         if not other_consistent: return False, '__add__:operand-not-consistent'
@@ -396,7 +398,7 @@ class Watch(object):
         k = op[0]
         if k == 'ad': return False
         if k == 'x': return not inv_violations(st.second(), limit=1)
-        if k == 'em': return self.now_ok and not inv_violations(st.second(), limit=1)
+        if k == 'em': return not VARIANTS.get('add_rocktype_relinks') and self.now_ok and not inv_violations(st.second(), limit=1)
         return self.now_ok
 
     def before(self, st, op):
@@ -1240,6 +1242,92 @@ def extended_edits(ctx, n_random):
             continue
         if check(res, key, inp, op): follow_up(res, key, inp, op)
     ctx.oracle_cases('grid-combining-edits', ncase, kinds=dict(kinds))
+    t2data_renames(ctx, max(60, n_random // 2), rng)
+
+
+def t2data_renames(ctx, n, rng):
+    """t2data.rename_blocks (the data-file level entry point of "renaming blocks": it renames the grid's blocks and re-keys
+    initial conditions, generators and history items).  IN the statement: the grid is consistent afterwards and no block is
+    lost, for swap / cycle / chain / fresh one-to-one maps, inverted or not, spelled as in the grid or in (a3, i2) form.
+    NOT in the statement of C08 (it speaks of the grid only) and therefore only COUNTED, never a failure of this check:
+    every generator, initial condition and history item still names a block of the grid and none of them is lost."""
+    import t2data as TD
+    kinds, companions = Counter(), Counter()
+    for ci in range(n):
+        nx, ny, nz = rng.randint(1, 3), rng.randint(1, 2), rng.randint(1, 3)
+        geo, g = make_geo_grid((nx, ny, nz, rng.choice([0, 2])))
+        names = [b.name for b in g.blocklist]
+        if len(names) < 2: continue
+        if rng.random() < 0.4:       # names that fix_blockname rewrites
+            m0 = dict((nm, 'k%s%d0%d' % (LETTERS[i % 26], 1 + i // 26, i % 10)) for i, nm in enumerate(names))
+            if len(set(m0.values())) == len(m0): g.rename_blocks(m0, fix_blocknames=False); names = [b.name for b in g.blocklist]
+        d = TD.t2data(); d.grid = g
+        for i, nm in enumerate(names):
+            d.incon[nm] = [None, [1.e5 + i, 20.]]
+            if rng.random() < 0.6: d.add_generator(TD.t2generator(name=rng.choice(['wel 1', 'wel 1', 'inj%2d' % i]), block=nm, gx=float(i)))
+        d.history_block = rng.sample(names, min(len(names), 3))
+        d.history_connection = [k for k in list(g.connection.keys())[:2]]
+        d.parameter['print_block'] = names[0]
+        style = rng.choice(['swap', 'cycle', 'cycle', 'chain', 'fresh'])
+        ks = rng.sample(names, min(len(names), rng.choice([2, 2, 3, 4])))
+        if style == 'swap': m = {ks[0]: ks[1], ks[1]: ks[0]}
+        elif style == 'cycle': m = dict((ks[i], ks[(i + 1) % len(ks)]) for i in range(len(ks)))
+        elif style == 'chain': m = dict([(ks[i], ks[i + 1]) for i in range(len(ks) - 1)] + [(ks[-1], fresh_name(rng, set(names)))])
+        else:
+            taken = set(names); m = {}
+            for k in ks:
+                m[k] = fresh_name(rng, taken); taken.add(m[k])
+        invert = rng.random() < 0.25
+        unfixed = rng.random() < 0.3
+        call_map = dict((py_unfix_name(k), py_unfix_name(v)) for k, v in m.items()) if unfixed else dict(m)
+        if invert: call_map = dict((v, k) for k, v in call_map.items())
+        inp = {'op': 't2data.rename_blocks', 'grid': [nx, ny, nz], 'names': names, 'map': sorted(call_map.items()), 'invert': invert}
+        kinds['%s%s%s' % (style, ' inverted' if invert else '', ' in (a3,i2) spelling' if unfixed else '')] += 1
+        ctx.count(('t2data-rename', ci, json.dumps(inp, default=str)))
+        nblk, ngen, ninc = len(g.blocklist), len(d.generatorlist), len(d.incon)
+        try: d.rename_blocks(call_map, invert=invert)
+        except Exception as e:
+            kinds['raised ' + type(e).__name__] += 1
+        v = inv_violations(d.grid)
+        want = sorted(py_fix_map(m).get(nm, nm) for nm in names)
+        if not v and sorted(d.grid.block) != want: v = ['the blocks of the grid are %r, not %r' % (sorted(d.grid.block), want)]
+        if v: ctx.failure('t2data-rename_blocks', 't2data.rename_blocks:grid', inp, '; '.join(v), 'a consistent grid that holds every block under its mapped name')
+        # companions of the grid in the data file (outside the statement: counted only)
+        if len(d.generator) != ngen or any(d.generator.get((gn.block, gn.name)) is not gn for gn in d.generatorlist): companions['generator dict lost or misfiled a generator'] += 1
+        if any(gn.block not in d.grid.block for gn in d.generatorlist): companions['generator names a block that is not in the grid'] += 1
+        if len(d.incon) != ninc or any(k not in d.grid.block for k in d.incon): companions['initial condition lost or under a name that is not in the grid'] += 1
+        if any((h if isinstance(h, str) else h.name) not in d.grid.block for h in d.history_block): companions['history block not in the grid'] += 1
+        if any(tuple(c) not in d.grid.connection for c in d.history_connection): companions['history connection not in the grid'] += 1
+        if d.parameter['print_block'] not in d.grid.block: companions['print_block not in the grid'] += 1
+    ctx.oracle_cases('t2data-rename_blocks', sum(v for k, v in kinds.items() if not k.startswith('raised')), kinds=dict(kinds),
+                     outside_the_statement_counted_only=dict(companions))
+    ctx.extra['t2data_rename_blocks_companions'] = dict(companions)
+
+
+def method_variants(ctx):
+    """which variant of delete_rocktype / add_block / add_rocktype the tree under test has, read off the AST of t2grids.py
+    (never by importing it): the model takes them as GenFlags.v.  Known variants: the original methods, and the repairs in
+    proposed_fixes/C08-delete-rocktype-in-use.diff (raises when the rock type is in use), C08-add-block-replaces-connected.diff
+    (raises when a different, connected block would be replaced) and C08-add-rocktype-relinks-blocks.diff (the blocks of a
+    replaced rock type get the new one).  The comparison with the implementation checks the choice."""
+    import ast
+    tree = ast.parse(open(os.path.join(ctx.repo, 't2grids.py')).read())
+    cls = [n for n in tree.body if isinstance(n, ast.ClassDef) and n.name == 't2grid']
+    fns = dict((n.name, n) for n in (cls[0].body if len(cls) == 1 else []) if isinstance(n, ast.FunctionDef))
+    missing = [m for m in ('delete_rocktype', 'add_block', 'add_rocktype') if m not in fns]
+    if missing:
+        ctx.refusal('t2grid methods', 'not found in t2grids.py: %s' % missing); return None
+    raises = lambda fn: any(isinstance(n, ast.Raise) for n in ast.walk(fn))
+    relinks = any(isinstance(n, ast.Assign) and any(isinstance(t, ast.Attribute) and t.attr == 'rocktype' and
+                                                     not (isinstance(t.value, ast.Name) and t.value.id == 'self') for t in n.targets)
+                  for n in ast.walk(fns['add_rocktype']))
+    if raises(fns['add_rocktype']):
+        ctx.refusal('t2grid.add_rocktype', 'a variant of add_rocktype that raises is not modelled'); return None
+    v = {'delete_rocktype_refuses': raises(fns['delete_rocktype']), 'add_block_refuses': raises(fns['add_block']), 'add_rocktype_relinks': relinks}
+    ctx.gen('GenFlags', '(* GENERATED from the AST of t2grids.py (tools/props/C08.py method_variants) -- do not edit *)\n' +
+            ''.join('Definition %s : bool := %s.\n' % (k, 'true' if b else 'false') for k, b in sorted(v.items())))
+    ctx.extra['method_variants'] = v
+    return v
 
 
 def run(ctx):
@@ -1279,15 +1367,18 @@ def run(ctx):
     ctx.stage()
     flag = os.path.join(ctx.build, 'drv.flag')
     built = {}
+    variants = method_variants(ctx)                       # before the workers are forked: they read VARIANTS
+    VARIANTS.clear(); VARIANTS.update(variants or {})
 
     def build_then_combine():
         """runs in this process while the sweep workers execute the implementation side: Coq build, driver,
         then the implementation-only oracle for the grid-combining edits"""
         try:
-            built['ok'] = ctx.coq_build(props=('Props.v', 'Props2.v'))
-            ctx.log('coq build done: %d theorems' % len(ctx.theorems))
-            built['exe'] = vf.build_driver(ctx)
-            ctx.log('driver built' if built['exe'] else 'driver NOT built')
+            if variants is not None:                      # else: a refusal is on record, the model is not built, the oracle goes on
+                built['ok'] = ctx.coq_build(props=('Props.v', 'Props2.v'))
+                ctx.log('coq build done: %d theorems' % len(ctx.theorems))
+                built['exe'] = vf.build_driver(ctx)
+            ctx.log('driver built' if built.get('exe') else 'driver NOT built')
         finally:
             with open(flag + '.tmp', 'w') as f: f.write('ok' if built.get('exe') else 'fail')
             os.replace(flag + '.tmp', flag)
